@@ -1,5 +1,12 @@
-// C12 — shared handles and atomic counters under every interleaving: real asl::Thread workers run straight-line handle
-// programs / counter programs under the vsched scheduler; every schedule of each program tuple is enumerated.
+// C12 — shared handles and atomic counters under every interleaving.
+// ONE source, TWO binaries:
+//   s_c12_handles (flavour asan, links vsched): real asl::Thread workers run straight-line handle / counter programs under the
+//     deterministic scheduler; every schedule (within the preemption bound) of every program tuple is executed.
+//   t_c12_race (flavour tsan; t_c12_race.cpp defines C12_RACE_PASS and includes this file): the SAME program tuples plus
+//     16-thread contention runs, free-running under ThreadSanitizer. It keeps the scheduler's assumption honest: the scheduler
+//     sees only hooked points, so an access that is not atomic / lock protected is invisible to it but is a TSan report here.
+// Every worker owns its handles; a sequential model predicts which object every handle designates after every operation
+// (payload tags), so "stays alive" is checked as "the handle still shows the payload the model says, undamaged".
 #include <asl/Array.h>
 #include <asl/Map.h>
 #include <asl/HashMap.h>
@@ -7,241 +14,735 @@
 #include <asl/Shared.h>
 #include <asl/Thread.h>
 #include <asl/Mutex.h>
+#include <sched.h>
 #include <set>
 #include "vf.h"
+#ifndef C12_RACE_PASS
 #include "vsched.h"
+#endif
 using namespace asl;
 using vf::fmt;
 
+#ifdef C12_RACE_PASS
+#define BUMP(x) __atomic_fetch_add(&(x), 1, __ATOMIC_RELAXED) // relaxed: adds no happens-before edge, is no race of our own
+static inline void c12_yield() { sched_yield(); }
+#else
+#define BUMP(x) ((x)++) // only touched while holding the scheduler baton
+static inline void c12_yield() { vsched::point(); }
+#endif
+
 // ---------------------------------------------------------------- payload with observable life cycle
-static volatile int g_ctor, g_dtor, g_bad, g_early; // accessed only while holding the scheduler baton
-struct Tracked {
+static int g_ctor, g_dtor, g_bad;
+static const void* g_orig; // address of the head payload of the shared object of the current execution
+static int g_freeby;       // scheduler id of the thread that destroyed it (0 main, 1.. workers)
+struct TBase { virtual ~TBase() {} };
+struct Tracked : TBase {
 	int magic; int* heap;
-	Tracked() : magic(0x600d), heap(new int(7)) { g_ctor++; }
-	Tracked(const Tracked& o) : magic(0x600d), heap(new int(*o.heap)) { g_ctor++; }
+	explicit Tracked(int tag = 7) : magic(0x600d), heap(new int(tag)) { BUMP(g_ctor); }
+	Tracked(const Tracked& o) : TBase(), magic(0x600d), heap(new int(*o.heap)) { BUMP(g_ctor); }
 	Tracked& operator=(const Tracked& o) { *heap = *o.heap; return *this; }
-	~Tracked() { if (magic != 0x600d) g_bad++; magic = 0xdead; delete heap; g_dtor++; }
+	~Tracked() {
+		if (magic != 0x600d) BUMP(g_bad);
+		magic = 0xdead; delete heap; BUMP(g_dtor);
+#ifndef C12_RACE_PASS
+		if (this == g_orig) g_freeby = vsched::self();
+#endif
+	}
 	bool operator==(const Tracked& o) const { return *heap == *o.heap; }
 	bool operator!=(const Tracked& o) const { return !(*this == o); }
 	bool operator<(const Tracked&) const { return false; }
 };
+static inline int ptag(const Tracked& t) { return t.magic == 0x600d ? *t.heap : -2; }
+
+// ---------------------------------------------------------------- handle kinds
+// tags: the shared object made by main has head tag 10 (recursive kinds: a second node 11 behind it); an object a worker
+// makes gets an even tag >= 100. tag(h): -1 = null / empty handle, -2 = damaged or unexpected shape.
+typedef Array<Tracked> KArr;
+typedef Map<int, Tracked> KMap;
+typedef HashMap<int, Tracked> KHash;
+typedef Shared<Tracked> KSh;
 ASL_SMART_CLASS(Obj, SmartObject) { public: Tracked t; ASL_SMART_INNER_DEF(Obj); };
 class Obj : public SmartObject { public: ASL_SMART_DEF(Obj, SmartObject) };
+// recursive kinds: the object holds a handle of its own type, so "own = <handle stored inside the object own releases>" exists
+struct Node { Tracked t; Shared<Node> next; explicit Node(int tag) : t(tag) {} };
+typedef Shared<Node> KList;
+class ONode; struct ONode_;
+class ONode : public SmartObject { public: ASL_SMART_DECL(ONode, SmartObject) };
+struct ONode_ : public SmartObject_ { Tracked t; ONode next; ONode_() : next((SmartObject_*)0) {} ASL_SMART_INNER_DECL(ONode) };
+ASL_SMART_INNER_IMPL(ONode)
+ONode::ONode() : SmartObject(new ONode_) {}
+ONode ONode::clone() const { return ONode(_()->clone()); }
+struct HNode { Tracked t; HashMap<int, HNode> kids; HNode() : kids(1) {} explicit HNode(int tag) : t(tag), kids(1) {} };
+typedef HashMap<int, HNode> KHRec;
+struct ANode { Tracked t; Array<ANode> kids; ANode() {} explicit ANode(int tag) : t(tag) {} };
+typedef Array<ANode> KARec;
 
-// handle kinds
+enum Op { COPY, ASSIGN_LO, ASSIGN_OL, DROP_L, DROP_O, FRESH, POP, SELF, DUP, NULLIFY, RAWSET, UPDOWN, CONVASSIGN, ASCOPY, CLONE, NOPS };
+static const char OPC[] = "cloxdfpsunrvwak";
+static const char* OPN[] = { "local=copy(own)", "local=own", "own=local", "drop local", "drop own", "own=fresh object", "own=<handle stored in own's object>", "own=own",
+	"own.dup()", "own=null", "own=new T (raw pointer)", "local=copy(Shared<Base>(own).as<T>())", "b=own (Shared<Base>); local=b.as<T>()", "local=copy(own.as<Obj>())", "own.clone() made and dropped" };
+#define M(o) (1u << (o))
+static const unsigned BASEOPS = M(COPY) | M(ASSIGN_LO) | M(ASSIGN_OL) | M(DROP_L) | M(DROP_O) | M(FRESH);
+
+template <class H> struct HXD { // kind-specific operations: defaults (never enabled for kinds that do not override them)
+	static void pop(H&) {} static void dup(H&) {} static void nullify(H&) {} static void rawset(H&, int) {}
+	static H* updown(const H&) { return 0; } static void convassign(H&, const H&) {} static H* ascopy(H&) { return 0; } static int clone(const H&) { return -2; }
+};
 template <class H> struct HK;
-template <> struct HK<Array<Tracked> > { static Array<Tracked> make() { Array<Tracked> a; a << Tracked(); return a; } static bool alive(const Array<Tracked>& h) { return h.length() == 1 && h[0].magic == 0x600d; } static const char* name() { return "Array<Tracked>"; } enum { payloads = 1 }; };
-template <> struct HK<Map<int, Tracked> > { static Map<int, Tracked> make() { Map<int, Tracked> m; m[1] = Tracked(); return m; } static bool alive(const Map<int, Tracked>& h) { return h.length() == 1 && h[1].magic == 0x600d; } static const char* name() { return "Map<int,Tracked>"; } enum { payloads = 1 }; };
-template <> struct HK<HashMap<int, int> > { static HashMap<int, int> make() { HashMap<int, int> m(4); m[1] = 5; m[5] = 6; return m; } static bool alive(const HashMap<int, int>& h) { return h.length() == 2 && h[5] == 6; } static const char* name() { return "HashMap<int,int>"; } enum { payloads = 0 }; };
-template <> struct HK<Shared<Tracked> > { static Shared<Tracked> make() { return Shared<Tracked>(new Tracked()); } static bool alive(const Shared<Tracked>& h) { return h->magic == 0x600d; } static const char* name() { return "Shared<Tracked>"; } enum { payloads = 1 }; };
-// a two-node list whose nodes hold the handle to their successor: "own = own->next" assigns from a handle that lives inside the object the destination releases
-struct Node { Tracked t; Shared<Node> next; };
-typedef Shared<Node> List;
-template <> struct HK<List> { static List make() { List a(new Node()), b(new Node()); a->next = b; return a; } static bool alive(const List& h) { return !h._p || h->t.magic == 0x600d; } static const char* name() { return "Shared<Node> list"; } enum { payloads = 2 }; };
-template <class H> static void popHead(H&) {}
-template <> void popHead<List>(List& h) { if (h._p) h = h->next; }
-template <> struct HK<Obj> { static Obj make() { return Obj(); } static bool alive(const Obj& h) { return h._()->t.magic == 0x600d; } static const char* name() { return "SmartObject-derived"; } enum { payloads = 1 }; };
+template <> struct HK<KArr> : HXD<KArr> { enum { ops = BASEOPS | M(SELF) | M(DUP), rec = 0 }; static const char* name() { return "Array<Tracked>"; }
+	static KArr make(int tag) { KArr a; a << Tracked(tag); return a; }
+	static int tag(const KArr& h) { return h.length() == 0 ? -1 : h.length() == 1 ? ptag(h[0]) : -2; }
+	static const void* orig(const KArr& h) { return &h[0]; }
+	static void dup(KArr& h) { h.dup(); } };
+template <> struct HK<KMap> : HXD<KMap> { enum { ops = BASEOPS | M(SELF) | M(DUP), rec = 0 }; static const char* name() { return "Map<int,Tracked>"; }
+	static KMap make(int tag) { KMap m; m[1] = Tracked(tag); return m; }
+	static int tag(const KMap& h) { const Tracked* a = h.find(1); return h.length() == 0 ? -1 : (h.length() == 1 && a) ? ptag(*a) : -2; } // find(): the const operator[] owns a static default T
+	static const void* orig(const KMap& h) { return h.find(1); }
+	static void dup(KMap& h) { h.dup(); } };
+template <> struct HK<KHash> : HXD<KHash> { enum { ops = BASEOPS | M(SELF) | M(DUP), rec = 0 }; static const char* name() { return "HashMap<int,Tracked>"; }
+	static KHash make(int tag) { KHash m(4); m[1] = Tracked(tag); m[5] = Tracked(tag); return m; } // keys 1 and 5 chain in one bin
+	static int tag(const KHash& h) { if (h.length() == 0) return -1; const Tracked* a = h.find(1); const Tracked* b = h.find(5); return (h.length() == 2 && a && b && ptag(*a) == ptag(*b)) ? ptag(*a) : -2; }
+	static const void* orig(const KHash& h) { return h.find(1); }
+	static void dup(KHash& h) { h.dup(); } };
+template <> struct HK<KSh> : HXD<KSh> { enum { ops = BASEOPS | M(SELF) | M(NULLIFY) | M(RAWSET) | M(UPDOWN) | M(CONVASSIGN), rec = 0 }; static const char* name() { return "Shared<Tracked>"; }
+	static KSh make(int tag) { return KSh(new Tracked(tag)); }
+	static int tag(const KSh& h) { return h._p && h._p->p ? ptag(*h) : -1; }
+	static const void* orig(const KSh& h) { return h.get(); }
+	static void nullify(KSh& h) { h = KSh(); }
+	static void rawset(KSh& h, int tag) { h = new Tracked(tag); }
+	static KSh* updown(const KSh& own) { Shared<TBase> b(own); return new KSh(b.as<Tracked>()); }
+	static void convassign(KSh& local, const KSh& own) { Shared<TBase> b; b = own; local = b.as<Tracked>(); } };
+template <> struct HK<Obj> : HXD<Obj> { enum { ops = BASEOPS | M(SELF) | M(NULLIFY) | M(ASCOPY) | M(CLONE), rec = 0 }; static const char* name() { return "SmartObject-derived"; }
+	static Obj make(int tag) { Obj o; *o._()->t.heap = tag; return o; }
+	static int tag(const Obj& h) { return h._p ? ptag(h._()->t) : -1; }
+	static const void* orig(const Obj& h) { return &h._()->t; }
+	static void nullify(Obj& h) { h = Obj((SmartObject_*)0); }
+	static Obj* ascopy(Obj& own) { return new Obj(own.as<Obj>()); }
+	static int clone(const Obj& own) { Obj c = own.clone(); return c._p == own._p ? -2 : tag(c); } };
+template <> struct HK<KList> : HXD<KList> { enum { ops = BASEOPS | M(POP), rec = 1 }; static const char* name() { return "Shared<Node> list"; }
+	static KList make(int tag) { KList a(new Node(tag)), b(new Node(tag + 1)); a->next = b; return a; }
+	static int tag(const KList& h) { return h._p && h._p->p ? ptag(h->t) : -1; }
+	static const void* orig(const KList& h) { return &h->t; }
+	static void pop(KList& h) { if (h._p) h = h->next; } };
+template <> struct HK<ONode> : HXD<ONode> { enum { ops = BASEOPS | M(POP), rec = 1 }; static const char* name() { return "SmartObject-derived list"; }
+	static ONode make(int tag) { ONode a, b; *a._()->t.heap = tag; *b._()->t.heap = tag + 1; a._()->next = b; return a; }
+	static int tag(const ONode& h) { return h._p ? ptag(h._()->t) : -1; }
+	static const void* orig(const ONode& h) { return &h._()->t; }
+	static void pop(ONode& h) { if (h._p) h = h._()->next; } };
+template <> struct HK<KHRec> : HXD<KHRec> { enum { ops = BASEOPS | M(POP), rec = 1 }; static const char* name() { return "HashMap<int,Node{HashMap}>"; }
+	static KHRec make(int tag) { KHRec m(2); HNode n1(tag), n2(tag + 1); n1.kids[1] = n2; m[1] = n1; return m; }
+	static int tag(const KHRec& h) { if (h.length() == 0) return -1; const HNode* a = h.find(1); return h.length() == 1 && a ? ptag(a->t) : -2; }
+	static const void* orig(const KHRec& h) { return &h.find(1)->t; }
+	static void pop(KHRec& h) { if (h.length()) h = h[1].kids; } };
+template <> struct HK<KARec> : HXD<KARec> { enum { ops = BASEOPS | M(POP), rec = 1 }; static const char* name() { return "Array<Node{Array}>"; }
+	static KARec make(int tag) { KARec a; ANode n1(tag), n2(tag + 1); n1.kids << n2; a << n1; return a; }
+	static int tag(const KARec& h) { return h.length() == 0 ? -1 : h.length() == 1 ? ptag(h[0].t) : -2; }
+	static const void* orig(const KARec& h) { return &h[0].t; }
+	static void pop(KARec& h) { if (h.length()) h = h[0].kids; } };
+enum { NKINDS = 9 };
+static const unsigned KOPS[NKINDS] = { HK<KArr>::ops, HK<KMap>::ops, HK<KHash>::ops, HK<KSh>::ops, HK<Obj>::ops, HK<KList>::ops, HK<ONode>::ops, HK<KHRec>::ops, HK<KARec>::ops };
+static const bool KREC[NKINDS] = { false, false, false, false, false, true, true, true, true };
+static const char* KNAME[NKINDS] = { "Array", "Map", "HashMap", "Shared", "SmartObject", "SharedList", "SmartObjectList", "HashMapRec", "ArrayRec" };
 
-enum Op { COPY, ASSIGN_LO, ASSIGN_OL, DROP_L, DROP_O, FRESH, POP };
-static const char* OPN[] = { "local=copy(own)", "local=own", "own=local", "drop local", "drop own", "own=fresh object", "own=own->next" };
+// ---------------------------------------------------------------- sequential model of one worker's handles
 typedef std::vector<int> Prog;
-static void genProgs(int maxLen, bool own, bool local, Prog cur, std::vector<Prog>& out, bool withPop = false) {
-	out.push_back(cur);
-	if ((int)cur.size() == maxLen) return;
-	for (int op = 0; op < (withPop ? 7 : 6); op++) {
-		bool ok = op == COPY ? (own && !local) : op == ASSIGN_LO || op == ASSIGN_OL ? (own && local) : op == DROP_L ? local : own;
-		if (!ok) continue;
-		if (op == FRESH && !cur.empty() && cur.back() == FRESH) continue;
-		Prog n = cur; n.push_back(op);
-		genProgs(maxLen, op == DROP_O ? false : own, op == COPY ? true : op == DROP_L ? false : local, n, out, withPop);
+struct MS { bool own, local; int ot, lt; };
+static bool opEnabled(int op, const MS& s, unsigned mask) {
+	if (!(mask & M(op))) return false;
+	switch (op) {
+	case COPY: case ASCOPY: return s.own && !s.local;
+	case UPDOWN: return s.own && !s.local && s.ot != -1; // Shared<T2>(null) and null.as<>() dereference the null core by design
+	case ASSIGN_LO: case ASSIGN_OL: return s.own && s.local;
+	case CONVASSIGN: return s.own && s.local && s.ot != -1;
+	case DROP_L: return s.local;
+	case POP: case CLONE: return s.own && s.ot != -1;
+	default: return s.own;
 	}
 }
+static MS opApply(MS s, int op, bool rec, int freshTag) {
+	switch (op) {
+	case COPY: case ASCOPY: case UPDOWN: s.local = true; s.lt = s.ot; break;
+	case ASSIGN_LO: case CONVASSIGN: s.lt = s.ot; break;
+	case ASSIGN_OL: s.ot = s.lt; break;
+	case DROP_L: s.local = false; break;
+	case DROP_O: s.own = false; break;
+	case FRESH: case RAWSET: s.ot = freshTag; break;
+	case POP: s.ot = (rec && s.ot % 2 == 0) ? s.ot + 1 : -1; break;
+	case NULLIFY: s.ot = -1; break;
+	default: break; // SELF, DUP, CLONE: own designates an object with the same tag
+	}
+	return s;
+}
+static bool opRedundant(const Prog& cur, int op) {
+	if (cur.empty()) return false;
+	int last = cur.back();
+	if ((last == FRESH || last == RAWSET) && (op == FRESH || op == RAWSET || op == NULLIFY)) return true; // replaces an object nobody else has seen
+	if (last == NULLIFY && op == NULLIFY) return true;
+	if ((op == SELF || op == DUP || op == CLONE) && last == op) return true;
+	return false;
+}
+static MS ms0() { MS s; s.own = true; s.local = false; s.ot = 10; s.lt = -3; return s; }
+static void genProgs(unsigned mask, bool rec, int maxLen, MS s, Prog cur, std::vector<Prog>& out) {
+	out.push_back(cur);
+	if ((int)cur.size() == maxLen) return;
+	for (int op = 0; op < NOPS; op++) {
+		if (!opEnabled(op, s, mask) || opRedundant(cur, op)) continue;
+		Prog n = cur; n.push_back(op);
+		genProgs(mask, rec, maxLen, opApply(s, op, rec, 100 + 2 * (int)cur.size()), n, out);
+	}
+}
+static bool hasOp(const Prog& p, int op) { for (size_t i = 0; i < p.size(); i++) if (p[i] == op) return true; return false; }
 static std::string progStr(const Prog& p) { std::string s; for (size_t i = 0; i < p.size(); i++) s += (i ? "; " : "") + std::string(OPN[p[i]]); return s.empty() ? "(nothing)" : s; }
+static std::string progCode(const Prog& p, bool digits) { std::string s; for (size_t i = 0; i < p.size(); i++) s += digits ? (char)('0' + p[i]) : OPC[p[i]]; return s.empty() ? "-" : s; }
 
+struct Step { int op, eo, el, fresh; }; // expected tags of own / local after the op (-3: no such handle)
+typedef std::vector<Step> Plan;
+static Plan makePlan(const Prog& p, bool rec, int widx) {
+	Plan pl; MS s = ms0();
+	for (size_t i = 0; i < p.size(); i++) { Step st; st.op = p[i]; st.fresh = 100 + 20 * widx + 2 * (int)i; s = opApply(s, p[i], rec, st.fresh); st.eo = s.own ? s.ot : -3; st.el = s.local ? s.lt : -3; pl.push_back(st); }
+	return pl;
+}
+
+static int g_go; // race pass start line: relaxed, so it adds no happens-before edge
 template <class H>
 struct Worker : public Thread {
-	H* own; H* local; const Prog* prog; int early;
-	Worker() : own(0), local(0), prog(0), early(0) {}
-	void check() { if ((own && !HK<H>::alive(*own)) || (local && !HK<H>::alive(*local))) early++; }
+	H* own; H* local; const Plan* plan; int wrong;
+	Worker() : own(0), local(0), plan(0), wrong(0) {}
+	void check(const Step& st) {
+		if ((own != 0) != (st.eo != -3) || (local != 0) != (st.el != -3)) { wrong++; return; }
+		if (own && HK<H>::tag(*own) != st.eo) wrong++;
+		if (local && HK<H>::tag(*local) != st.el) wrong++;
+	}
 	void run() {
-		for (size_t i = 0; i < prog->size(); i++) {
-			switch ((*prog)[i]) {
+#ifdef C12_RACE_PASS
+		for (int spin = 0; spin < 200000 && !__atomic_load_n(&g_go, __ATOMIC_RELAXED); spin++) {}
+#endif
+		for (size_t i = 0; i < plan->size(); i++) {
+			const Step& st = (*plan)[i];
+			switch (st.op) {
 			case COPY: local = new H(*own); break;
 			case ASSIGN_LO: *local = *own; break;
 			case ASSIGN_OL: *own = *local; break;
 			case DROP_L: delete local; local = 0; break;
 			case DROP_O: delete own; own = 0; break;
-			case FRESH: *own = HK<H>::make(); break;
-			case POP: popHead(*own); break;
+			case FRESH: *own = HK<H>::make(st.fresh); break;
+			case POP: HK<H>::pop(*own); break;
+			case SELF: { H& alias = *own; *own = alias; } break;
+			case DUP: HK<H>::dup(*own); break;
+			case NULLIFY: HK<H>::nullify(*own); break;
+			case RAWSET: HK<H>::rawset(*own, st.fresh); break;
+			case UPDOWN: local = HK<H>::updown(*own); break;
+			case CONVASSIGN: HK<H>::convassign(*local, *own); break;
+			case ASCOPY: local = HK<H>::ascopy(*own); break;
+			case CLONE: if (HK<H>::clone(*own) != st.eo) wrong++; break;
 			}
-			check();
+			check(st);
 		}
 		delete local; local = 0; delete own; own = 0;
 	}
 };
 
-static int C_EXEC, C_POINTS, C_JOBS, W_PREEMPT, C_STATES;
+// ---------------------------------------------------------------- counters
+// payload of Atomic<T>: every read-modify-write yields between its read and its write, so an operator of Atomic<T> that does not
+// hold the lock loses an update in some schedule
+struct Counter { int v; Counter(int x = 0) : v(x) {}
+	Counter& rmw(int d, int mul) { int t = v; c12_yield(); v = t * mul + d; return *this; }
+	Counter& operator+=(int d) { return rmw(d, 1); } Counter& operator-=(int d) { return rmw(-d, 1); } Counter& operator*=(int d) { return rmw(0, d); }
+	Counter& operator/=(int d) { int t = v; c12_yield(); v = t / d; return *this; }
+	Counter& operator<<(int d) { return rmw(d, 1); }                                   // "append d"
+	Counter& operator>>(int& out) { int t = v; c12_yield(); out = t; v = t - 1; return *this; } // "take one"
+	Counter& operator++() { return rmw(1, 1); } Counter& operator--() { return rmw(-1, 1); }
+	Counter operator++(int) { Counter c = *this; rmw(1, 1); return c; } Counter operator--(int) { Counter c = *this; rmw(-1, 1); return c; }
+	operator int() const { return v; } };
+enum { NATOPS = 10 };
+static const int ATDELTA[NATOPS] = { 1, -1, 3, -2, 0, 1, -1, 0, 4, -1 };
+static const char* ATNAME[NATOPS] = { "++a", "--a", "a+=3", "a-=2", "a*=1", "a++", "a--", "a/=1", "a<<4", "a>>x" };
+struct CountWorker : public Thread {
+	AtomicCount* ac; Atomic<Counter>* at; const Prog* prog; int reps;
+	CountWorker() : ac(0), at(0), prog(0), reps(1) {}
+	void run() {
+#ifdef C12_RACE_PASS
+		for (int spin = 0; spin < 200000 && !__atomic_load_n(&g_go, __ATOMIC_RELAXED); spin++) {}
+#endif
+		for (int r = 0; r < reps; r++) for (size_t i = 0; i < prog->size(); i++) {
+			int op = (*prog)[i];
+			if (ac) { if (op == 0) ++*ac; else --*ac; }
+			else { int x = 0; switch (op) { case 0: ++*at; break; case 1: --*at; break; case 2: *at += 3; break; case 3: *at -= 2; break; case 4: *at *= 1; break;
+				case 5: (*at)++; break; case 6: (*at)--; break; case 7: *at /= 1; break; case 8: *at << 4; break; default: *at >> x; break; } }
+		}
+	}
+};
+static int counterExpected(bool atomicT, const std::vector<Prog>& progs, int reps = 1) {
+	int e = 10;
+	for (size_t i = 0; i < progs.size(); i++) for (size_t j = 0; j < progs[i].size(); j++) e += reps * (atomicT ? ATDELTA[progs[i][j]] : (progs[i][j] == 0 ? 1 : -1));
+	return e;
+}
+static std::string counterStr(bool atomicT, const Prog& p) { std::string s; for (size_t i = 0; i < p.size(); i++) s += (i ? "; " : "") + std::string(atomicT ? ATNAME[p[i]] : p[i] == 0 ? "++c" : "--c"); return s; }
+static void genCounterProgs(int nops, int maxLen, std::vector<Prog>& out) {
+	out.clear();
+	for (int len = 1; len <= maxLen; len++) { int n = 1; for (int i = 0; i < len; i++) n *= nops; for (int x = 0; x < n; x++) { Prog p; int y = x; for (int i = 0; i < len; i++) { p.push_back(y % nops); y /= nops; } out.push_back(p); } }
+}
+
+// ---------------------------------------------------------------- job table (shared by both passes)
+struct Job { int family; int kind; std::vector<Prog> progs; int bound; }; // family 0 = handles, 1 = AtomicCount, 2 = Atomic<Counter>, 3 = contention run (race pass), 4 = TSan positive control
+static std::string jobName(const Job& j) {
+	std::string s = fmt("f%d.k%d.b%d.", j.family, j.kind, j.bound);
+	for (size_t i = 0; i < j.progs.size(); i++) s += (i ? "_" : "") + progCode(j.progs[i], j.family != 0);
+	return s;
+}
+static bool parseJob(const std::string& name, Job& j) {
+	int f, k, b, off = 0;
+	if (sscanf(name.c_str(), "f%d.k%d.b%d.%n", &f, &k, &b, &off) < 3 || !off) return false;
+	j.family = f; j.kind = k; j.bound = b; j.progs.clear();
+	if (f < 0 || f > 4 || k < 0 || (f == 0 && k >= NKINDS)) return false;
+	Prog cur; bool any = false;
+	for (size_t i = off; i <= name.size(); i++) {
+		char c = i < name.size() ? name[i] : '_';
+		if (c == '_') { if (any) j.progs.push_back(cur); cur.clear(); any = false; continue; }
+		any = true;
+		if (c == '-') continue;
+		if (f == 0) { const char* p = strchr(OPC, c); if (!p || !c) return false; cur.push_back((int)(p - OPC)); }
+		else { if (c < '0' || c > '9') return false; cur.push_back(c - '0'); }
+	}
+	return !j.progs.empty() || f >= 3;
+}
+static std::string jobDesc(const Job& j) {
+	std::string d;
+	for (size_t i = 0; i < j.progs.size(); i++) d += fmt("%sT%d: ", i ? " || " : "", (int)i + 1) + (j.family == 0 ? progStr(j.progs[i]) : counterStr(j.family == 2, j.progs[i]));
+	return d;
+}
+static int progCost(const Prog& p) { int c = 1; for (size_t i = 0; i < p.size(); i++) c += (p[i] == DROP_L || p[i] == DROP_O) ? 1 : 3; return c; }
+static bool jobCostlier(const Job& a, const Job& b) {
+	long ca = 1, cb = 1;
+	for (size_t i = 0; i < a.progs.size(); i++) ca *= progCost(a.progs[i]);
+	for (size_t i = 0; i < b.progs.size(); i++) cb *= progCost(b.progs[i]);
+	ca <<= 2 * (a.bound < 0 ? 3 : a.bound); cb <<= 2 * (b.bound < 0 ? 3 : b.bound);
+	return ca > cb;
+}
+static int envInt(const char* n, int def) { const char* v = getenv(n); return v && *v ? atoi(v) : def; }
+static const unsigned COREOPS = BASEOPS | M(SELF) | M(POP);
+static int nSpecific(const Prog& p) { int n = 0; for (size_t i = 0; i < p.size(); i++) if (!(COREOPS & M(p[i]))) n++; return n; }
+// preemption bound for a pair / triple of handle programs in this tier (-2: not enumerated). "Specific" operations are the ones only
+// some kinds have (dup, null, raw pointer, converted handles, as<>, clone); the core alphabet is copy, assign both ways, drops,
+// fresh object, self-assignment and assignment from a handle stored inside the object.
+static int pairBound(bool T, int kind, const Prog& a, const Prog& b) {
+	int L = (int)std::max(a.size(), b.size()), l = (int)std::min(a.size(), b.size()), sa = nSpecific(a), sb = nSpecific(b);
+	bool twoCounts = kind == 2 || kind == 7; // HashMap: two reference counts per handle, twice the atomic steps
+	if (!T) {
+		if (L <= 2 && sa <= 1 && sb <= 1) return (L + l <= 3 || (sa + sb == 0 && !twoCounts)) ? 2 : 1;
+		if (L == 3 && l <= 2 && sa + sb == 0) return 1;
+		return -2;
+	}
+	if (L <= 2) return 2;
+	if (L == 3 && l <= 2 && sa <= 1 && sb <= 1) return (twoCounts || (sa + sb > 0 && l > 1)) ? 1 : 2;
+	if (L == 3 && sa + sb == 0) return (kind == 0 || kind == 3 || kind == 4) ? 2 : 1;
+	if (L == 4 && l <= 2 && sa + sb == 0) return 1;
+	return -2;
+}
+static int tripleBound(bool T, int kind, const Prog& a, const Prog& b, const Prog& c) {
+	int tot = (int)(a.size() + b.size() + c.size());
+	if (nSpecific(a) + nSpecific(b) + nSpecific(c)) return -2;
+	if (!T) return tot <= (kind == 7 ? 3 : 4) ? 1 : -2;
+	if (kind == 2 || kind == 7) return tot <= 2 ? 2 : tot <= 4 ? 1 : -2;
+	return tot <= 2 ? 2 : 1;
+}
+struct Bounds { int acLen, acTriLen, acTriBound, atBound; };
+static Bounds tierBounds(bool T) { Bounds b; b.acLen = T ? 4 : 3; b.acTriLen = T ? 2 : 1; b.acTriBound = T ? 3 : 2; b.atBound = envInt("C12_AB", T ? 2 : 1); return b; }
+static std::vector<Prog> g_cp1, g_cp2;
+static void buildJobs(bool T, std::vector<Job>& jobs) {
+	Bounds B = tierBounds(T);
+	for (int k = 0; k < NKINDS; k++) {
+		std::vector<Prog> P; genProgs(KOPS[k], KREC[k], T ? 4 : 3, ms0(), Prog(), P);
+		// Recursive kinds: only tuples with an "own = handle stored in own's object" somewhere (the others are the flat kind's).
+		for (size_t a = 0; a < P.size(); a++) for (size_t b = a; b < P.size(); b++) {
+			if (KREC[k] && !hasOp(P[a], POP) && !hasOp(P[b], POP)) continue;
+			Job j; j.family = 0; j.kind = k; j.bound = pairBound(T, k, P[a], P[b]);
+			if (j.bound == -2) continue;
+			j.progs.push_back(P[a]); j.progs.push_back(P[b]); jobs.push_back(j);
+		}
+		// three workers (+ main): multisets of three core-alphabet programs of <= 2 ops
+		std::vector<Prog> S; genProgs(KOPS[k] & COREOPS, KREC[k], 2, ms0(), Prog(), S);
+		for (size_t a = 0; a < S.size(); a++) for (size_t b = a; b < S.size(); b++) for (size_t c = b; c < S.size(); c++) {
+			if (KREC[k] && !hasOp(S[a], POP) && !hasOp(S[b], POP) && !hasOp(S[c], POP)) continue;
+			Job j; j.family = 0; j.kind = k; j.bound = tripleBound(T, k, S[a], S[b], S[c]);
+			if (j.bound == -2) continue;
+			j.progs.push_back(S[a]); j.progs.push_back(S[b]); j.progs.push_back(S[c]); jobs.push_back(j);
+		}
+	}
+	// AtomicCount: every pair of ++/-- programs under ALL schedules; triples bounded
+	genCounterProgs(2, B.acLen, g_cp1);
+	for (size_t a = 0; a < g_cp1.size(); a++) for (size_t b = a; b < g_cp1.size(); b++) { Job j; j.family = 1; j.kind = 0; j.progs.push_back(g_cp1[a]); j.progs.push_back(g_cp1[b]); j.bound = g_cp1[a].size() + g_cp1[b].size() <= (T ? 5u : 4u) ? -1 : T ? 3 : 2; jobs.push_back(j); }
+	{ std::vector<Prog> s; genCounterProgs(2, B.acTriLen, s); for (size_t a = 0; a < s.size(); a++) for (size_t b = a; b < s.size(); b++) for (size_t c = b; c < s.size(); c++) { Job j; j.family = 1; j.kind = 0; j.progs.push_back(s[a]); j.progs.push_back(s[b]); j.progs.push_back(s[c]); j.bound = B.acTriBound; jobs.push_back(j); } }
+	// Atomic<Counter>: every pair of programs over the ten read-modify-write operators
+	genCounterProgs(NATOPS, 2, g_cp2);
+	for (size_t a = 0; a < g_cp2.size(); a++) for (size_t b = a; b < g_cp2.size(); b++) { Job j; j.family = 2; j.kind = 0; j.progs.push_back(g_cp2[a]); j.progs.push_back(g_cp2[b]); j.bound = (g_cp2[a].size() == 1 && g_cp2[b].size() == 1) ? (T ? -1 : 3) : B.atBound; jobs.push_back(j); }
+	{ Job j; j.family = 2; j.kind = 0; j.bound = T ? 2 : 1; for (int t = 0; t < 3; t++) j.progs.push_back(Prog(1, 0)); for (int a = 0; a < NATOPS; a++) for (int b = a; b < NATOPS; b++) for (int c = b; c < NATOPS; c++) { j.progs[0][0] = a; j.progs[1][0] = b; j.progs[2][0] = c; jobs.push_back(j); } }
+	if (getenv("C12_BOUND")) for (size_t i = 0; i < jobs.size(); i++) jobs[i].bound = atoi(getenv("C12_BOUND"));
+	if (getenv("C12_ONLY")) { std::vector<Job> q; for (size_t i = 0; i < jobs.size(); i++) if (jobName(jobs[i]).find(getenv("C12_ONLY")) != std::string::npos) q.push_back(jobs[i]); jobs.swap(q); }
+	std::stable_sort(jobs.begin(), jobs.end(), jobCostlier); // expensive tuples first: short tail when the items are handed out
+}
+// each worker process (and the threads it creates) stays on one CPU: a hand-off between two threads of an execution is then a
+// local context switch instead of a cross-CPU wake-up (measured 17x faster on this machine). Placement only; verdicts unaffected.
+static void pinOnce() {
+	static pid_t done = 0;
+	if (done == getpid() || getenv("C12_NOPIN")) return;
+	done = getpid();
+	cpu_set_t all; CPU_ZERO(&all);
+	if (sched_getaffinity(0, sizeof all, &all) != 0) return;
+	int n = CPU_COUNT(&all); if (n < 1) return;
+	int want = (vf::worker_id() > 0 ? vf::worker_id() - 1 : 0) % n, seen = 0;
+	for (int c = 0; c < CPU_SETSIZE; c++) if (CPU_ISSET(c, &all)) { if (seen++ == want) { cpu_set_t one; CPU_ZERO(&one); CPU_SET(c, &one); sched_setaffinity(0, sizeof one, &one); return; } }
+}
+#ifndef C12_RACE_PASS
+// ================================================================ scheduler pass
+static int C_EXEC, C_POINTS, C_JOBS, W_PREEMPT, C_STATES, C_BLIND, C_RECHECK, W_ATOM[NKINDS], W_ATOM_AC, W_LOCK_AT, W_FREEBY[4], W_OP[NOPS], W_ATOP[NATOPS], W_LONG, W_TRIPLE_ASSIGN;
+#ifdef ASL_VERIF_HAVE_COUNT_READ_POINT
+static int W_RCREAD;
+#endif
 static std::string g_case;
+static long g_execsInProcess; // the sanitizer runtime keeps a record per thread ever created and searches them linearly: a worker process is replaced after a few thousand executions
 static void onFatal(const char* what, const std::string& schedule) {
 	std::string w = what; for (size_t i = 0; i < w.size(); i++) w[i] = (char)tolower(w[i]);
 	if (w == "diverged") { fprintf(stderr, "HARNESS ERROR: schedule replay diverged (%s | %s)\n", g_case.c_str(), schedule.c_str()); _exit(2); }
 	vf::violation(w, std::string(what) + " under schedule " + schedule, g_case + "|" + schedule);
 	vf::restart_worker();
 }
+// schedule points of the library's atomic steps in one execution: kind 1 is ASL_VP_ATOMIC and also the scheduler's own point at
+// pthread_create, of which an execution has exactly one per worker
+static int atomicPoints(const vsched::Result& x, size_t nworkers, int* locks, int* reads) {
+	int n = 0; *locks = 0; *reads = 0;
+	for (size_t i = 0; i < x.points.size(); i++) { int k = x.points[i].kind; if (k == 1) n++; else if (k == 4) ++*locks; else if (k == 21) ++*reads; }
+	n -= (int)nworkers;
+	return n < 0 ? 0 : n;
+}
 
-// one family instance: n worker programs over handle kind H
 template <class H>
-static void handleJob(const std::vector<const Prog*>& progs, const std::string& kase, int bound, const std::string* replay) {
+static void handleJob(const Job& job, const std::string& kase, const std::string* replay) {
 	g_case = kase;
-	std::set<std::string> outcomes;
-	struct Ctx { std::string outcome; } ctx;
+	size_t n = job.progs.size();
+	std::vector<Plan> plans(n);
+	for (size_t i = 0; i < n; i++) plans[i] = makePlan(job.progs[i], HK<H>::rec, (int)i);
+	std::string outcome; outcome.reserve(256);
 	auto body = [&]() {
-		g_ctor = g_dtor = g_bad = 0;
+		g_ctor = g_dtor = g_bad = 0; g_orig = 0; g_freeby = -1;
 		vf::asan_clear();
-		ctx.outcome.clear(); ctx.outcome.reserve(256);
 		uint64_t heap0 = vf::heap_bytes();
-		int live = 0, bad = 0, early = 0, base = 0;
+		int live = 0, bad = 0, wrong = 0;
 		{
-			size_t n = progs.size();
-			H* h0 = new H(HK<H>::make());
-			base = g_ctor - g_dtor; // live payload instances belonging to the shared object (temporaries are gone)
+			H* h0 = new H(HK<H>::make(10));
+			g_orig = HK<H>::orig(*h0);
 			std::vector<Worker<H>*> w(n);
-			for (size_t i = 0; i < n; i++) { w[i] = new Worker<H>(); w[i]->own = new H(*h0); w[i]->prog = progs[i]; }
+			for (size_t i = 0; i < n; i++) { w[i] = new Worker<H>(); w[i]->own = new H(*h0); w[i]->plan = &plans[i]; }
 			for (size_t i = 0; i < n; i++) w[i]->start();
-			bool mainEarly = !HK<H>::alive(*h0);
+			if (HK<H>::tag(*h0) != 10) wrong++;
 			delete h0; // main drops its handle concurrently with the workers
 			for (size_t i = 0; i < n; i++) w[i]->join();
-			early = mainEarly ? 1 : 0;
-			for (size_t i = 0; i < n; i++) { early += w[i]->early; delete w[i]; }
+			for (size_t i = 0; i < n; i++) { wrong += w[i]->wrong; delete w[i]; }
 			live = g_ctor - g_dtor; bad = g_bad;
 		}
 		long long dh = (long long)(vf::heap_bytes() - heap0);
-		char buf[200]; snprintf(buf, sizeof buf, "live=%d bad=%d early=%d base=%d heap=%+lld asan=%s", live, bad, early, base, dh, vf::asan_tripped() ? vf::asan_what().c_str() : "-");
-		ctx.outcome = buf;
+		char buf[200]; snprintf(buf, sizeof buf, "live=%d bad=%d wrong=%d heap=%+lld asan=%s", live, bad, wrong, dh, vf::asan_tripped() ? vf::asan_what().c_str() : "-");
+		outcome = buf;
 	};
-	std::string expected;
 	auto after = [&](const vsched::Result& x) {
-		vf::add(C_EXEC); vf::add(C_POINTS, x.points.size()); if (x.preemptions) vf::add(W_PREEMPT);
-		outcomes.insert(ctx.outcome);
-		bool ok = ctx.outcome.find("live=0 bad=0 early=0") == 0 && ctx.outcome.find("heap=+0 asan=-") != std::string::npos;
-		if (!ok) vf::violation("handle_lifetime", fmt("%s, programs [%s]: %s under schedule %s", HK<H>::name(), kase.c_str(), ctx.outcome.c_str(), x.trace().c_str()), kase + "|" + x.trace());
+		vf::add(C_EXEC); vf::add(C_POINTS, x.points.size()); if (x.preemptions) vf::add(W_PREEMPT); g_execsInProcess++;
+		bool okLife = outcome.find("live=0 bad=0 wrong=0 ") == 0 && outcome.find(" asan=-") != std::string::npos;
+		bool ok = okLife && outcome.find("heap=+0 ") != std::string::npos;
+		if (okLife && !ok) { // a lazily built static first reached under this schedule allocates once: only a delta that repeats is a leak
+			vf::add(C_RECHECK);
+			std::string first = outcome;
+			vsched::run_once(x.choices, body);
+			ok = outcome.find("live=0 bad=0 wrong=0 heap=+0 asan=-") == 0;
+			if (!ok) outcome = first + " (repeated: " + outcome + ")";
+		}
+		if (!ok) { vf::violation("handle_lifetime", fmt("%s, programs [%s]: %s under schedule %s", HK<H>::name(), jobDesc(job).c_str(), outcome.c_str(), x.trace().c_str()), kase + "|" + x.trace()); return; }
+		int locks, reads, at = atomicPoints(x, n, &locks, &reads);
+		vf::add(W_ATOM[job.kind], at);
+		if (at < 2 * (int)n + 1) vf::add(C_BLIND); // n copies made by main + n + 1 handles dropped: fewer atomic steps seen = the library's ref counts no longer pass the hooked operations
+#ifdef ASL_VERIF_HAVE_COUNT_READ_POINT
+		vf::add(W_RCREAD, reads);
+#endif
+		if (g_freeby >= 0 && g_freeby < 4) vf::add(W_FREEBY[g_freeby]);
+		for (size_t i = 0; i < n; i++) for (size_t k = 0; k < job.progs[i].size(); k++) vf::add(W_OP[job.progs[i][k]]);
 	};
 	if (replay) { vsched::run_once(std::vector<uint8_t>(), body); vsched::Result x = vsched::run_once(vsched::parse_schedule(*replay), body); after(x); return; }
-	// warm-up execution (lazily built statics) whose outcome is not judged for the heap delta
-	{ vsched::run_once(std::vector<uint8_t>(), body); }
-	vsched::ExploreStats st = vsched::explore(body, after, bound);
+	{ vsched::run_once(std::vector<uint8_t>(), body); } // warm-up execution (lazily built statics): not judged
+	vsched::ExploreStats st = vsched::explore(body, after, job.bound);
 	if (getenv("VF_DEBUG")) fprintf(stderr, "job %s: exec %llu points %llu maxpts %llu\n", kase.c_str(), (unsigned long long)st.executions, (unsigned long long)st.points, (unsigned long long)st.max_points);
 	vf::add(C_JOBS);
-	vf::note(fmt("traces:handles:%s:%d-threads", HK<H>::name(), (int)progs.size()), st.executions);
+	if (n == 2 && job.bound == 1) vf::add(W_LONG);
+	if (n == 3) for (size_t i = 0; i < n; i++) if (hasOp(job.progs[i], ASSIGN_OL) || hasOp(job.progs[i], ASSIGN_LO)) { vf::add(W_TRIPLE_ASSIGN); break; }
+	vf::note(fmt("traces:handles:%s:%d-threads:bound%d", KNAME[job.kind], (int)n, job.bound), st.executions);
 	vf::add(C_STATES, st.distinct_states); if (st.states_saturated) vf::note("state_table_saturated");
-	vf::note(fmt("outcomes:%s", HK<H>::name()), outcomes.size());
 	if (!st.complete) vf::cap_hit("execution cap in " + kase);
 }
 
-// ---------------------------------------------------------------- counters
-struct Counter { int v; Counter(int x = 0) : v(x) {}
-	Counter& operator+=(int d) { int t = v; vsched::point(); v = t + d; return *this; }
-	Counter& operator-=(int d) { int t = v; vsched::point(); v = t - d; return *this; }
-	Counter& operator*=(int d) { int t = v; vsched::point(); v = t * d; return *this; }
-	Counter& operator++() { return *this += 1; } Counter& operator--() { return *this -= 1; }
-	Counter operator++(int) { Counter c = *this; *this += 1; return c; } Counter operator--(int) { Counter c = *this; *this -= 1; return c; }
-	operator int() const { return v; } };
-struct CountWorker : public Thread {
-	AtomicCount* ac; Atomic<Counter>* at; const Prog* prog;
-	void run() {
-		for (size_t i = 0; i < prog->size(); i++) {
-			int op = (*prog)[i];
-			if (ac) { if (op == 0) ++*ac; else --*ac; }
-			else { switch (op) { case 0: ++*at; break; case 1: --*at; break; case 2: *at += 3; break; case 3: *at -= 2; break; default: *at *= 1; } }
-		}
-	}
-};
-static void counterJob(bool atomicT, const std::vector<const Prog*>& progs, const std::string& kase, int bound, const std::string* replay) {
+static void counterJob(const Job& job, const std::string& kase, const std::string* replay) {
 	g_case = kase;
+	bool atomicT = job.family == 2;
 	int result = 0;
 	auto body = [&]() {
 		AtomicCount ac(10); Atomic<Counter> at; at = Counter(10);
-		std::vector<CountWorker*> w(progs.size());
-		for (size_t i = 0; i < w.size(); i++) { w[i] = new CountWorker(); w[i]->ac = atomicT ? 0 : &ac; w[i]->at = atomicT ? &at : 0; w[i]->prog = progs[i]; }
+		std::vector<CountWorker*> w(job.progs.size());
+		for (size_t i = 0; i < w.size(); i++) { w[i] = new CountWorker(); w[i]->ac = atomicT ? 0 : &ac; w[i]->at = atomicT ? &at : 0; w[i]->prog = &job.progs[i]; }
 		for (size_t i = 0; i < w.size(); i++) w[i]->start();
 		for (size_t i = 0; i < w.size(); i++) { w[i]->join(); delete w[i]; }
 		result = atomicT ? (~at).v : (int)ac;
 	};
-	int expected = 10;
-	for (size_t i = 0; i < progs.size(); i++) for (size_t j = 0; j < progs[i]->size(); j++) { int op = (*progs[i])[j]; expected += atomicT ? (op == 0 ? 1 : op == 1 ? -1 : op == 2 ? 3 : op == 3 ? -2 : 0) : (op == 0 ? 1 : -1); }
-	std::set<int> outcomes;
+	int expected = counterExpected(atomicT, job.progs);
+	int minAtomic = 0; for (size_t i = 0; i < job.progs.size(); i++) minAtomic += (int)job.progs[i].size();
 	auto after = [&](const vsched::Result& x) {
-		vf::add(C_EXEC); vf::add(C_POINTS, x.points.size()); if (x.preemptions) vf::add(W_PREEMPT);
-		outcomes.insert(result);
-		if (result != expected) vf::violation("lost_update", fmt("%s programs [%s]: final value %d, expected %d, under schedule %s", atomicT ? "Atomic<Counter>" : "AtomicCount", kase.c_str(), result, expected, x.trace().c_str()), kase + "|" + x.trace());
+		vf::add(C_EXEC); vf::add(C_POINTS, x.points.size()); if (x.preemptions) vf::add(W_PREEMPT); g_execsInProcess++;
+		if (result != expected) { vf::violation("lost_update", fmt("%s programs [%s]: final value %d, expected %d, under schedule %s", atomicT ? "Atomic<Counter>" : "AtomicCount", jobDesc(job).c_str(), result, expected, x.trace().c_str()), kase + "|" + x.trace()); return; }
+		int locks, reads, at = atomicPoints(x, job.progs.size(), &locks, &reads);
+		if (atomicT) { vf::add(W_LOCK_AT, locks); for (size_t i = 0; i < job.progs.size(); i++) for (size_t k = 0; k < job.progs[i].size(); k++) vf::add(W_ATOP[job.progs[i][k]]); }
+		else { vf::add(W_ATOM_AC, at); if (at < minAtomic) vf::add(C_BLIND); }
 	};
 	if (replay) { vsched::Result x = vsched::run_once(vsched::parse_schedule(*replay), body); after(x); return; }
-	vsched::ExploreStats st = vsched::explore(body, after, bound);
+	vsched::ExploreStats st = vsched::explore(body, after, job.bound);
 	vf::add(C_JOBS);
-	vf::note(atomicT ? "traces:Atomic<Counter>" : "traces:AtomicCount", st.executions);
+	vf::note(fmt("traces:%s:%d-threads:bound%d", atomicT ? "Atomic<Counter>" : "AtomicCount", (int)job.progs.size(), job.bound), st.executions);
 	vf::add(C_STATES, st.distinct_states); if (st.states_saturated) vf::note("state_table_saturated");
 	if (!st.complete) vf::cap_hit("execution cap in " + kase);
 }
 
-// ---------------------------------------------------------------- job table
-struct Job { int family; int kind; std::vector<int> prog; int bound; }; // family 0 = handles, 1 = AtomicCount, 2 = Atomic<Counter>
-static std::vector<Prog> HP, HPL, CP1, CP2;
-static std::string jobName(const Job& j) { std::string s = fmt("f%d.k%d.b%d", j.family, j.kind, j.bound); for (size_t i = 0; i < j.prog.size(); i++) s += fmt(".%d", j.prog[i]); return s; }
 static void runJob(const Job& j, const std::string* replay) {
-	std::vector<const Prog*> ps;
-	const std::vector<Prog>& table = j.family == 0 ? (j.kind == 5 ? HPL : HP) : j.family == 1 ? CP1 : CP2;
-	for (size_t i = 0; i < j.prog.size(); i++) ps.push_back(&table[j.prog[i]]);
-	std::string desc;
-	for (size_t i = 0; i < ps.size(); i++) desc += fmt("%sT%d: ", i ? " || " : "", (int)i + 1) + (j.family == 0 ? progStr(*ps[i]) : vf::hist_str(vf::Hist(ps[i]->begin(), ps[i]->end())));
+	pinOnce();
 	std::string kase = jobName(j);
-	vf::cur(kase + " " + desc);
+	vf::cur(kase + " " + jobDesc(j));
+	vf::cur_sig("crash_or_hang");
+	alarm(envInt("C12_JOB_ALARM", 900)); // a library broken badly enough to loop without reaching a schedule point must not hang the check: the worker dies, the tuple is reported
 	if (j.family == 0) {
 		switch (j.kind) {
-		case 0: handleJob<Array<Tracked> >(ps, kase, j.bound, replay); break;
-		case 1: handleJob<Map<int, Tracked> >(ps, kase, j.bound, replay); break;
-		case 2: handleJob<HashMap<int, int> >(ps, kase, j.bound, replay); break;
-		case 3: handleJob<Shared<Tracked> >(ps, kase, j.bound, replay); break;
-		case 5: handleJob<List>(ps, kase, j.bound, replay); break;
-		default: handleJob<Obj>(ps, kase, j.bound, replay); break;
+		case 0: handleJob<KArr>(j, kase, replay); break;
+		case 1: handleJob<KMap>(j, kase, replay); break;
+		case 2: handleJob<KHash>(j, kase, replay); break;
+		case 3: handleJob<KSh>(j, kase, replay); break;
+		case 4: handleJob<Obj>(j, kase, replay); break;
+		case 5: handleJob<KList>(j, kase, replay); break;
+		case 6: handleJob<ONode>(j, kase, replay); break;
+		case 7: handleJob<KHRec>(j, kase, replay); break;
+		default: handleJob<KARec>(j, kase, replay); break;
 		}
-	} else counterJob(j.family == 2, ps, kase, j.bound, replay);
-}
-static void genCounterProgs(int nops, int maxLen, std::vector<Prog>& out) {
-	out.clear();
-	for (int len = 1; len <= maxLen; len++) { int n = 1; for (int i = 0; i < len; i++) n *= nops; for (int x = 0; x < n; x++) { Prog p; int y = x; for (int i = 0; i < len; i++) { p.push_back(y % nops); y /= nops; } out.push_back(p); } }
+	} else counterJob(j, kase, replay);
+	alarm(0);
+	if (!replay && g_execsInProcess > envInt("C12_RESTART", 4000)) vf::restart_worker();
 }
 
 int main(int argc, char** argv) {
 	vf::init(argc, argv, "C12", "s_c12_handles");
 	C_EXEC = vf::counter("traces"); C_POINTS = vf::counter("transitions"); C_JOBS = vf::counter("program_tuples"); W_PREEMPT = vf::counter("w.executions_with_preemption"); C_STATES = vf::counter("states");
+	C_BLIND = vf::counter("executions_with_too_few_atomic_points"); C_RECHECK = vf::counter("heap_delta_rechecks");
+	for (int k = 0; k < NKINDS; k++) W_ATOM[k] = vf::counter(fmt("w.atomic_points.%s", KNAME[k]).c_str());
+	W_ATOM_AC = vf::counter("w.atomic_points.AtomicCount"); W_LOCK_AT = vf::counter("w.lock_points.Atomic<Counter>");
+	{ const char* who[4] = { "main", "T1", "T2", "T3" }; for (int i = 0; i < 4; i++) W_FREEBY[i] = vf::counter(fmt("w.final_free_by.%s", who[i]).c_str()); }
+	for (int o = 0; o < NOPS; o++) W_OP[o] = vf::counter(fmt("w.op.%c.%s", OPC[o], OPN[o]).c_str());
+	for (int o = 0; o < NATOPS; o++) W_ATOP[o] = vf::counter(fmt("w.atomic_op.%s", ATNAME[o]).c_str());
+	W_LONG = vf::counter("w.pairs_with_longest_programs_bound1"); W_TRIPLE_ASSIGN = vf::counter("w.triples_with_assignment");
+#ifdef ASL_VERIF_HAVE_COUNT_READ_POINT
+	W_RCREAD = vf::counter("w.refcount_read_points");
+#endif
 	vsched::set_fatal_handler(onFatal);
 	bool T = vf::opt.thorough();
-	genProgs(T ? 3 : 2, true, false, Prog(), HP);
-	genProgs(T ? 3 : 2, true, false, Prog(), HPL, true);
-	genCounterProgs(2, T ? 4 : 3, CP1);
-	genCounterProgs(5, 2, CP2);
-	std::vector<Job> jobs;
-	// two threads (+ main): every pair of handle programs, every handle kind, all schedules with <= 2 preemptions
-	for (int k = 0; k < 6; k++) { size_t np = k == 5 ? HPL.size() : HP.size(); for (size_t a = 0; a < np; a++) for (size_t b = a; b < np; b++) { Job j; j.family = 0; j.kind = k; j.prog.push_back((int)a); j.prog.push_back((int)b); j.bound = 2; jobs.push_back(j); } }
-	// three threads: every triple of programs of <= 1 (quick) / 2 (thorough) ops, preemption bound 2 / 3
-	{ std::vector<Prog> small; genProgs(1, true, false, Prog(), small); size_t n = small.size();
-	  for (int k = 0; k < 5; k++) for (size_t a = 0; a < n; a++) for (size_t b = a; b < n; b++) for (size_t c = b; c < n; c++) { Job j; j.family = 0; j.kind = k; j.prog.push_back((int)a); j.prog.push_back((int)b); j.prog.push_back((int)c); j.bound = T ? 2 : 1; jobs.push_back(j); } }
-	// AtomicCount: every pair of ++/-- programs; Atomic<Counter>: every pair of programs over ++ -- += -= *=
-	for (size_t a = 0; a < CP1.size(); a++) for (size_t b = a; b < CP1.size(); b++) { Job j; j.family = 1; j.kind = 0; j.prog.push_back((int)a); j.prog.push_back((int)b); size_t tot = CP1[a].size() + CP1[b].size(), mx = std::max(CP1[a].size(), CP1[b].size()); j.bound = tot <= (T ? 8u : 6u) ? -1 : 2; (void)mx; jobs.push_back(j); }
-	for (size_t a = 0; a < CP2.size(); a++) for (size_t b = a; b < CP2.size(); b++) { Job j; j.family = 2; j.kind = 0; j.prog.push_back((int)a); j.prog.push_back((int)b); j.bound = T ? -1 : 3; jobs.push_back(j); }
-	{ std::vector<Prog> one; genCounterProgs(2, 1, one); for (size_t a = 0; a < 2; a++) for (size_t b = 0; b < 2; b++) for (size_t c = 0; c < 2; c++) { Job j; j.family = 1; j.kind = 0; j.prog.push_back((int)a); j.prog.push_back((int)b); j.prog.push_back((int)c); j.bound = T ? 3 : 2; jobs.push_back(j); } }
-	if (getenv("C12_BOUND")) for (size_t i = 0; i < jobs.size(); i++) jobs[i].bound = atoi(getenv("C12_BOUND"));
-	if (getenv("C12_ONLY")) { std::vector<Job> q; for (size_t i = 0; i < jobs.size(); i++) if (jobName(jobs[i]).find(getenv("C12_ONLY")) == 0) q.push_back(jobs[i]); jobs.swap(q); }
 	if (vf::opt.replay) {
 		std::string k = vf::opt.kase, sched;
 		size_t bar = k.find('|'); if (bar != std::string::npos) { sched = k.substr(bar + 1); k = k.substr(0, bar); }
 		size_t sp = k.find(' '); if (sp != std::string::npos) k = k.substr(0, sp);
-		for (size_t i = 0; i < jobs.size(); i++) if (jobName(jobs[i]) == k) { vf::parallel(1, [&](uint64_t) { runJob(jobs[i], &sched); }); break; }
+		Job j;
+		if (!parseJob(k, j) || j.family > 2) { fprintf(stderr, "HARNESS ERROR: cannot parse case '%s'\n", k.c_str()); return 2; }
+		// a case without a schedule comes from a worker that died (the parent knows the tuple, not the schedule): re-explore the tuple
+		vf::parallel(1, [&](uint64_t) { runJob(j, sched.empty() ? 0 : &sched); });
 		return vf::finish();
 	}
+	std::vector<Job> jobs;
+	buildJobs(T, jobs);
+	if (getenv("C12_LIST")) { std::map<std::string, int> cnt; for (size_t i = 0; i < jobs.size(); i++) cnt[fmt("f%d.k%d.n%d.b%d", jobs[i].family, jobs[i].kind, (int)jobs[i].progs.size(), jobs[i].bound)]++; for (std::map<std::string, int>::iterator it = cnt.begin(); it != cnt.end(); ++it) printf("%s %d\n", it->first.c_str(), it->second); return 0; }
 	vf::parallel(jobs.size(), [&](uint64_t i) { if (vf::deadline_passed()) { vf::cap_hit("deadline"); return; } runJob(jobs[i], 0); });
-	vf::setinfo("program_tables", fmt("{\"handle_programs\": %d, \"atomiccount_programs\": %d, \"atomic_counter_programs\": %d, \"jobs\": %d}", (int)HP.size(), (int)CP1.size(), (int)CP2.size(), (int)jobs.size()));
-	vf::sample("Array<Tracked>: T1: local=copy(own); own=local || T2: drop own  (main drops its handle concurrently) - all schedules");
-	vf::sample("Atomic<Counter>: T1: a += 3; a *= 1 || T2: --a; a -= 2 with Counter yielding between its read and write");
-	return vf::finish();
+	vf::setinfo("program_tables", fmt("{\"jobs\": %d, \"atomiccount_programs\": %d, \"atomic_counter_programs\": %d}", (int)jobs.size(), (int)g_cp1.size(), (int)g_cp2.size()));
+	vf::sample("Array<Tracked>: T1: local=copy(own); own=local || T2: drop own  (main drops its handle concurrently) - all schedules with <= 2 preemptions");
+	vf::sample("HashMap<int,Node{HashMap}>: T1: own=<handle stored in own's object> || T2: own=own; drop own");
+	vf::sample("Atomic<Counter>: T1: a++; a/=1 || T2: a<<4; a>>x with Counter yielding between its read and write");
+	int rc = vf::finish();
+	if (rc == 0 && vf::get(C_BLIND)) { fprintf(stderr, "HARNESS ERROR: %llu execution(s) showed fewer atomic schedule points than handles were copied and dropped: the library's reference counts no longer go through the hooked atomicInc/atomicDec, the exploration is blind\n", (unsigned long long)vf::get(C_BLIND)); return 2; }
+	return rc;
 }
+#endif
+#ifdef C12_RACE_PASS
+// ================================================================ ThreadSanitizer pass (free-running; not an exploration)
+extern "C" {
+int __tsan_get_report_data(void* report, const char** description, int* count, int* stack_count, int* mop_count, int* loc_count, int* mutex_count, int* thread_count, int* unique_tid_count, void** sleep_trace, unsigned long trace_size);
+}
+static int g_reports;
+static char g_what[160];
+extern "C" void __tsan_on_report(void* report) {
+	const char* d = 0; int count, sc, mc, lc, mtc, tc, ut; void* sl[1];
+	__tsan_get_report_data(report, &d, &count, &sc, &mc, &lc, &mtc, &tc, &ut, sl, 1);
+	if (!__atomic_load_n(&g_reports, __ATOMIC_RELAXED) && d) { snprintf(g_what, sizeof g_what, "%s", d); }
+	__atomic_fetch_add(&g_reports, 1, __ATOMIC_RELAXED);
+}
+extern "C" const char* __tsan_default_options() { return "halt_on_error=0:exitcode=0:report_signal_unsafe=0:history_size=4:die_after_fork=0:print_summary=0"; }
+static int g_violationsInProcess; // after a violation the process state cannot be trusted (nothing quarantines a freed block here): the worker is replaced
+static void raceViolation(const std::string& sig, const std::string& desc, const std::string& kase) { g_violationsInProcess++; vf::violation(sig, desc, kase); }
+static int C_RUNS, C_TUPLES, C_REPORTS, W_CONTROL, C_CONTROL_FAIL, W_STRESS_OPS, W_STRESS_RUNS, W_RACE_KIND[NKINDS], W_RACE_TRIPLES;
+
+// in-run positive control: a deliberately racy pair in the harness's own code. If the detector does not report it, a clean
+// result of this pass means nothing (detector not linked / report callback not invoked / reports suppressed).
+static int g_racy;
+struct RacyWorker : public Thread { void run() { for (int i = 0; i < 1000; i++) g_racy = g_racy + 1; } };
+static void controlOnce() {
+	static pid_t done = 0;
+	if (done == getpid()) return;
+	done = getpid();
+	__atomic_store_n(&g_reports, 0, __ATOMIC_RELAXED);
+	{ RacyWorker a, b; a.start(); b.start(); a.join(); b.join(); }
+	int r = __atomic_load_n(&g_reports, __ATOMIC_RELAXED);
+	if (r > 0) vf::add(W_CONTROL, r); else vf::add(C_CONTROL_FAIL);
+	__atomic_store_n(&g_reports, 0, __ATOMIC_RELAXED); g_what[0] = 0;
+}
+static bool raceVerdict(const std::string& what, const std::string& desc, const std::string& kase) {
+	int r = __atomic_load_n(&g_reports, __ATOMIC_RELAXED);
+	if (!r) return false;
+	vf::add(C_REPORTS, r);
+	raceViolation("data_race", fmt("%s, [%s] free-running under ThreadSanitizer: %d report(s), first: %s", what.c_str(), desc.c_str(), r, g_what), kase);
+	return true;
+}
+
+template <class H>
+static void raceHandleJob(const Job& job, const std::string& kase, int reps) {
+	size_t n = job.progs.size();
+	std::vector<Plan> plans(n);
+	for (size_t i = 0; i < n; i++) plans[i] = makePlan(job.progs[i], HK<H>::rec, (int)i);
+	for (int r = 0; r < reps; r++) {
+		g_ctor = g_dtor = g_bad = 0; __atomic_store_n(&g_reports, 0, __ATOMIC_RELAXED); g_what[0] = 0;
+		__atomic_store_n(&g_go, 0, __ATOMIC_RELAXED);
+		int wrong = 0;
+		{
+			H* h0 = new H(HK<H>::make(10));
+			std::vector<Worker<H>*> w(n);
+			for (size_t i = 0; i < n; i++) { w[i] = new Worker<H>(); w[i]->own = new H(*h0); w[i]->plan = &plans[i]; }
+			for (size_t i = 0; i < n; i++) w[i]->start();
+			__atomic_store_n(&g_go, 1, __ATOMIC_RELAXED);
+			if (HK<H>::tag(*h0) != 10) wrong++;
+			delete h0;
+			for (size_t i = 0; i < n; i++) w[i]->join();
+			for (size_t i = 0; i < n; i++) { wrong += w[i]->wrong; delete w[i]; }
+		}
+		vf::add(C_RUNS);
+		int live = g_ctor - g_dtor;
+		if (raceVerdict(HK<H>::name(), jobDesc(job), kase)) return;
+		if (live != 0 || g_bad || wrong) { raceViolation("handle_lifetime", fmt("%s, programs [%s] free-running: live=%d bad=%d wrong=%d", HK<H>::name(), jobDesc(job).c_str(), live, (int)g_bad, wrong), kase); return; }
+	}
+	vf::add(W_RACE_KIND[job.kind]); if (n == 3) vf::add(W_RACE_TRIPLES);
+}
+static void raceCounterJob(const Job& job, const std::string& kase, int reps, int nthreads, int loops) {
+	bool atomicT = job.family == 2 || (job.family == 3 && job.kind == NKINDS + 1);
+	std::vector<Prog> progs = job.progs;
+	if (nthreads) { progs.clear(); Prog p; if (atomicT) for (int o = 0; o < NATOPS; o++) p.push_back(o); else { p.push_back(0); p.push_back(0); p.push_back(1); } for (int t = 0; t < nthreads; t++) { progs.push_back(p); std::rotate(p.begin(), p.begin() + 1, p.end()); } }
+	int expected = counterExpected(atomicT, progs, loops);
+	for (int r = 0; r < reps; r++) {
+		__atomic_store_n(&g_reports, 0, __ATOMIC_RELAXED); g_what[0] = 0; __atomic_store_n(&g_go, 0, __ATOMIC_RELAXED);
+		int result;
+		{
+			AtomicCount ac(10); Atomic<Counter> at; at = Counter(10);
+			std::vector<CountWorker*> w(progs.size());
+			for (size_t i = 0; i < w.size(); i++) { w[i] = new CountWorker(); w[i]->ac = atomicT ? 0 : &ac; w[i]->at = atomicT ? &at : 0; w[i]->prog = &progs[i]; w[i]->reps = loops; }
+			for (size_t i = 0; i < w.size(); i++) w[i]->start();
+			__atomic_store_n(&g_go, 1, __ATOMIC_RELAXED);
+			for (size_t i = 0; i < w.size(); i++) { w[i]->join(); delete w[i]; }
+			result = atomicT ? (~at).v : (int)ac;
+		}
+		vf::add(C_RUNS);
+		if (nthreads) { vf::add(W_STRESS_RUNS); vf::add(W_STRESS_OPS, (uint64_t)progs.size() * progs[0].size() * loops); }
+		std::string what = fmt("%s, %d threads", atomicT ? "Atomic<Counter>" : "AtomicCount", (int)progs.size());
+		std::string desc = nthreads ? fmt("%d repetitions of %s per thread", loops, counterStr(atomicT, progs[0]).c_str()) : jobDesc(job);
+		if (raceVerdict(what, desc, kase)) return;
+		if (result != expected) { raceViolation("lost_update", fmt("%s [%s] free-running: final value %d, expected %d", what.c_str(), desc.c_str(), result, expected), kase); return; }
+	}
+}
+// contention run: 16 workers hammer the reference count of ONE shared object with copies, assignments both ways, self-assignment
+// and drops for `iters` rounds each while main drops its handle
+template <class H>
+struct StressWorker : public Thread {
+	H* own; int iters, wrong;
+	void run() {
+		for (int spin = 0; spin < 200000 && !__atomic_load_n(&g_go, __ATOMIC_RELAXED); spin++) {}
+		for (int i = 0; i < iters; i++) {
+			H* local = new H(*own);
+			*local = *own; *own = *local;
+			{ H& alias = *own; *own = alias; }
+			if ((i & 255) == 0 && HK<H>::tag(*local) != 10) wrong++;
+			delete local;
+			if ((i & 63) == 63) { H* t = new H(*own); delete own; own = t; }
+		}
+		if (HK<H>::tag(*own) != 10) wrong++;
+		delete own; own = 0;
+	}
+};
+template <class H>
+static void stressJob(const std::string& kase, int iters) {
+	enum { NT = 16 };
+	g_ctor = g_dtor = g_bad = 0; __atomic_store_n(&g_reports, 0, __ATOMIC_RELAXED); g_what[0] = 0; __atomic_store_n(&g_go, 0, __ATOMIC_RELAXED);
+	int wrong = 0;
+	{
+		H* h0 = new H(HK<H>::make(10));
+		std::vector<StressWorker<H>*> w(NT);
+		for (int i = 0; i < NT; i++) { w[i] = new StressWorker<H>(); w[i]->own = new H(*h0); w[i]->iters = iters; w[i]->wrong = 0; }
+		for (int i = 0; i < NT; i++) w[i]->start();
+		__atomic_store_n(&g_go, 1, __ATOMIC_RELAXED);
+		delete h0;
+		for (int i = 0; i < NT; i++) w[i]->join();
+		for (int i = 0; i < NT; i++) { wrong += w[i]->wrong; delete w[i]; }
+	}
+	vf::add(C_RUNS); vf::add(W_STRESS_RUNS); vf::add(W_STRESS_OPS, (uint64_t)NT * iters * 5);
+	int live = g_ctor - g_dtor;
+	std::string desc = fmt("16 threads x %d rounds of copy, local=own, own=local, own=own, drop on one object", iters);
+	if (raceVerdict(HK<H>::name(), desc, kase)) return;
+	if (live != 0 || g_bad || wrong) raceViolation("handle_lifetime", fmt("%s, %s, free-running: live=%d bad=%d wrong=%d", HK<H>::name(), desc.c_str(), live, (int)g_bad, wrong), kase);
+}
+static void runJob(const Job& j, int reps, bool T) {
+	controlOnce();
+	std::string kase = jobName(j);
+	vf::cur(kase + " " + jobDesc(j));
+	vf::add(C_TUPLES);
+	vf::cur_sig("crash_or_hang");
+	if (j.family == 4) return; // the control itself (runs once in every worker process)
+	int iters = envInt("C12_STRESS", T ? 20000 : 2000);
+	int k = j.kind;
+	alarm(envInt("C12_JOB_ALARM", j.family == 3 ? 900 : 120)); // free-running threads of a broken library may spin on a corrupted structure: the worker dies, the tuple is reported
+#define C12_DISPATCH(F, ...) switch (k) { case 0: F<KArr>(__VA_ARGS__); break; case 1: F<KMap>(__VA_ARGS__); break; case 2: F<KHash>(__VA_ARGS__); break; case 3: F<KSh>(__VA_ARGS__); break; case 4: F<Obj>(__VA_ARGS__); break; \
+	case 5: F<KList>(__VA_ARGS__); break; case 6: F<ONode>(__VA_ARGS__); break; case 7: F<KHRec>(__VA_ARGS__); break; default: F<KARec>(__VA_ARGS__); break; }
+	if (j.family == 0) { C12_DISPATCH(raceHandleJob, j, kase, reps) }
+	else if (j.family == 3 && k < NKINDS) { C12_DISPATCH(stressJob, kase, iters) }
+	else if (j.family == 3) raceCounterJob(j, kase, 1, 16, k == NKINDS ? iters * 4 : iters / 4);
+	else raceCounterJob(j, kase, reps, 0, 1);
+	alarm(0);
+	if (g_violationsInProcess) vf::restart_worker();
+}
+
+int main(int argc, char** argv) {
+	vf::init(argc, argv, "C12", "t_c12_race");
+	C_RUNS = vf::counter("tsan_executions"); C_TUPLES = vf::counter("tsan_program_tuples"); C_REPORTS = vf::counter("tsan_reports");
+	W_CONTROL = vf::counter("w.tsan_control_reports"); C_CONTROL_FAIL = vf::counter("tsan_control_not_reported");
+	W_STRESS_RUNS = vf::counter("w.tsan_contention_runs_16_threads"); W_STRESS_OPS = vf::counter("w.tsan_contention_operations");
+	for (int k = 0; k < NKINDS; k++) W_RACE_KIND[k] = vf::counter(fmt("w.tsan_clean_tuples.%s", KNAME[k]).c_str());
+	W_RACE_TRIPLES = vf::counter("w.tsan_clean_triples");
+	bool T = vf::opt.thorough();
+	int reps = envInt("C12_REPS", 2);
+	if (vf::opt.replay) {
+		std::string k = vf::opt.kase; size_t sp = k.find(' '); if (sp != std::string::npos) k = k.substr(0, sp);
+		Job j;
+		if (!parseJob(k, j)) { fprintf(stderr, "HARNESS ERROR: cannot parse case '%s'\n", k.c_str()); return 2; }
+		vf::parallel(1, [&](uint64_t) { runJob(j, 20, T); });
+		return vf::finish();
+	}
+	std::vector<Job> jobs;
+	buildJobs(T, jobs);
+	for (int k = 0; k < NKINDS + 2; k++) { Job j; j.family = 3; j.kind = k; j.bound = 0; jobs.insert(jobs.begin(), j); } // the 16-thread runs first
+	{ Job j; j.family = 4; j.kind = 0; j.bound = 0; jobs.insert(jobs.begin(), j); }
+	vf::parallel(jobs.size(), [&](uint64_t i) { if (vf::deadline_passed()) { vf::cap_hit("deadline"); return; } runJob(jobs[i], (T || (jobs[i].progs.size() == 2 && jobs[i].bound == 2)) ? reps : 1, T); }, 8);
+	vf::setinfo("role", "\"assumption check for the scheduler-based part: every program tuple of that part, and 16-thread contention runs, free-running under ThreadSanitizer; not an exploration\"");
+	int rc = vf::finish();
+	if (vf::get(C_CONTROL_FAIL) || !vf::get(W_CONTROL)) { fprintf(stderr, "HARNESS ERROR: ThreadSanitizer did not report the deliberately racy pair of the in-run control (%llu worker process(es) without a report): a clean result of this pass means nothing\n", (unsigned long long)vf::get(C_CONTROL_FAIL)); return 2; }
+	return rc;
+}
+#endif
